@@ -46,8 +46,8 @@ PROVED = ['lcm_den_multiplier / lcm_den_least / lcm_den_invariant [P]: the lcm o
           'assert!(value.is_integer()) holds (disc(f) det(B)^2 / lc^(2n-2) = det Tr, proved without roots: Euler trace formula + resultant of the multiplication matrix); '
           'order_discriminant_trace_form [P]: the same for order_discriminant at any d with d lc f = (-1)^(n(n-1)/2) Res(f\', f)']
 NOT_PROVED = ['singly_gen_disc for a monic LINEAR f (degree 1, theta a rational constant) and for non-monic f (not a claim of the property); proved for monic f of degree >= 2',
-              'non_monic_initial_order: that the module spanned by its rows is closed under multiplication (is an order) is not proved here; the rows and the module are (non_monic_order_module)',
-              'totality of get_mult_table on lattices closed under multiplication (order_disc_trace_form takes "get_mult_table b f = Done t" as the definition of "b spans an order")']
+              'nothing else of the property text; proved under other properties and used here: "get_mult_table b f = Done t" (the hypothesis of order_disc_trace_form) holds exactly when the full-rank '
+              'basis b is closed under multiplication (C14 get_mult_table_iff), and non_monic_initial_order returns an order for every f of degree >= 1 (C06 non_monic_start_is_order, Dedekind)']
 ASSUMPTIONS = ['num::integer::lcm on BigInt taken as Z.lcm (non-negative)',
                'C02 (HNF canonicity, union, termination) and C18 (determinant = \\det) theorems are used as proved in coq/Refine (merged from main and area/linalg)']
 
